@@ -539,7 +539,7 @@ def replay(ctx, doc):
         from props import c07_clock
 
         return c07_clock.replay(doc["failure"]["input"])
-    if doc["failure"]["input"].get("kind") in ("wire-listing", "wire-special-files", "wire-big-directory"):
+    if doc["failure"]["input"].get("kind") in ("wire-listing", "wire-special-files", "wire-big-directory", "wire-configured"):
         from props import c07_wire
 
         return c07_wire.replay(doc["failure"]["input"])
